@@ -57,7 +57,7 @@ FIELD = [
 ]
 
 UNIT = Unit(
-    name='opt_ts', props=['C04', 'C07'], pre_verus=O.PRE_VERUS, spec_files=['std_slices.rs', 'typexpr.rs', 'txt.rs', 'optmark.rs'], prelude=PRELUDE,
+    name='opt_ts', props=['C04', 'C07'], pre_verus=O.PRE_VERUS, spec_files=['std_slices.rs', 'seqjoin.rs', 'typexpr.rs', 'txt.rs', 'optmark.rs'], prelude=PRELUDE,
     items=O.base_items('TypeScript', SRC) + [
         Item('write_field', SRC, ['impl TypeScript {', 'fn write_field'], FIELD, wrap=('impl TypeScript {\n', '\n}\n'),
              auto=('fmt', 'strlit', 'then_some', 'map_err_q')),
